@@ -33,6 +33,7 @@ def frame():
     df["xf"] = [2.5, 10.5, 2.5, 0.25, 10.5, 7.0, 0.25, 7.0]
     df["z0"] = [1, 0, -1, 0, 1, -1, 1, 0]  # zero is a level, and not the first one
     df["e0"] = ["b", "", "a", "", "b", "a", "b", ""]
+    df["inc"] = [250000.0, 250000.5, 250001.0, 250000.5, 1e-9, 0.0, 250001.0, 0.0]  # distinct values that are "close"
     df["cu"] = pd.Categorical(df["f"], categories=["a", "d", "b", "c"])  # 'd' is declared but never occurs
     return df
 
@@ -46,7 +47,9 @@ def cases():
     out = []
     out.append({"k": "binary-absent", "col": "cu", "s": "d"})
     out.append({"k": "binary-absent", "col": "o", "s": "zz"})
-    for col in ("f", "k", "m", "xf", "o", "g", "cu"):
+    out.append({"k": "binary-absent", "col": "inc", "s": 250000.25})
+    out.append({"k": "binary-absent", "col": "inc", "s": 1e-10})
+    for col in ("f", "k", "m", "xf", "o", "g", "cu", "inc"):
         vals = sorted(set(df[col].tolist()))
         for s in vals:
             for fn in ("binary", "B"):
@@ -67,7 +70,7 @@ def cases():
     pairs = [("B(f, 'b')", "binary(f, 'b')"), ("B(k)", "binary(k)"), ("standardize(x)", "scale(x)"), ("standardize(np.log(x))", "scale(np.log(x))"),
              ("T(f, 'c')", "C(f, Treatment('c'))"), ("T(f)", "C(f, Treatment)"), ("T(f)", "C(f)"), ("T(k, 20)", "C(k, Treatment(20))"), ("S(f, 'a')", "C(f, Sum('a'))"),
              ("S(f)", "C(f, Sum)"), ("S(o)", "C(o, Sum())"), ("T(f, ref='b')", "T(f, 'b')"), ("S(f, omit='b')", "S(f, 'b')"),
-             ("T(z0, 0)", "C(z0, Treatment(0))"), ("S(z0, 0)", "C(z0, Sum(0))"), ("T(z0, 1)", "C(z0, Treatment(1))"), ("T(e0, 'b')", "C(e0, Treatment('b'))")]
+             ("I(o)", "o"), ("{o}", "o"), ("I(f)", "f"), ("I(g)", "g"), ("T(z0, 0)", "C(z0, Treatment(0))"), ("S(z0, 0)", "C(z0, Sum(0))"), ("T(z0, 1)", "C(z0, Treatment(1))"), ("T(e0, 'b')", "C(e0, Treatment('b'))")]
     ctx = ["y ~ {a}", "y ~ 0 + {a}", "y ~ x + {a}:x", "y ~ ({a} | g)", "y ~ {a} + z"]
     for a, b in pairs:
         for c in ctx:
@@ -254,8 +257,9 @@ def check_case(case, acc):
                 if not np.array_equal(np.asarray(A.design_matrix, dtype=float), np.asarray(B.design_matrix, dtype=float)):
                     problems.append(("alias", "values", f"{case['a']!r} and {case['b']!r} give different {nm} matrices"))
                 if nm == "common":
-                    la = [c.replace(case["na"], "@") for c in A.as_dataframe().columns]
-                    lb = [c.replace(case["nb"], "@") for c in B.as_dataframe().columns]
+                    na_ = "I(" + case["na"][1:-1] + ")" if case["na"].startswith("{") else case["na"]
+                    la = [c.replace(na_ + "[", "@[") if "[" in c else c.replace(na_, "@") for c in A.as_dataframe().columns]
+                    lb = [c.replace(case["nb"] + "[", "@[") if "[" in c else c.replace(case["nb"], "@") for c in B.as_dataframe().columns]
                     if la != lb:
                         problems.append(("alias", "labels", f"{case['a']!r} and {case['b']!r} label their columns differently: {la} vs {lb}"))
                 if nm == "response":
